@@ -1464,6 +1464,8 @@ class Node:
         if style == "list":
             if repr is None:
                 repr = self.DEFAULT_RENDER_REPR
+            if not self._parent:
+                add_self = False  # never render the invisible system root
             for n in self.iterator(add_self=add_self):
                 if callable(repr):
                     yield repr(n)
